@@ -224,6 +224,77 @@ def classify(job, bad):
             "what": mm["what"]}
 
 
+# ---------------------------------------------------------------------------------------------------------------------
+# layered tidal model + temperature (specs/LayeredTides.tla, harness/layered_driver.py)
+# ---------------------------------------------------------------------------------------------------------------------
+def layered_state(st):
+    tm = st["tm"]
+    return [st["e"], st["obl"], st["orb"], st["spin"], list(tm) if tm else []]
+
+
+def layered_part(ck, tier, rng):
+    jobs = []
+    for sync, obl in CONFIGS:
+        cfg = "LayeredTides_s%s_o%s.cfg" % (str(sync).upper(), str(obl).upper())
+        r = run_tlc("LayeredTides", cfg, coverage=True, timeout=900)
+        ck.add_tlc(r, "LayeredTides cascade (layered model + temperature / strength) sync=%s obl=%s (complete graph)" % (sync, obl))
+        if not r.ok:
+            ck.violation({"clause": "layered_model", "invariant": r.violated}, "TLC: %s violated on LayeredTides (%s)" % (r.violated, cfg), {"trace": [str(t)[:1500] for t in (r.trace or [])]})
+            continue
+        zero = [a for a, (d, t) in r.coverage.items() if t == 0 and not (sync and a == "WorldSetSpin")]
+        if zero:
+            raise MachineryError("vacuity: LayeredTides actions never taken: %s" % zero)
+        behs = graph_walks(ck, "LayeredTides", cfg, layered_state, rng, (300 if sync else 500) if tier == "quick" else 10 ** 9, "layered sync=%s,obl=%s" % (sync, obl))
+        nchunk = 1 if tier == "quick" else 4
+        for i in range(nchunk):
+            part = behs[i::nchunk]
+            if part:
+                jobs.append({"sync": sync, "obl_on": obl, "behaviours": part})
+    if not jobs:
+        return
+    wd = scratch("c13layered")
+    procs = []
+    env = dict(os.environ, PYTHONPATH=VERIF, PYTHONHASHSEED="0", NUMBA_NUM_THREADS="1", OMP_NUM_THREADS="1")
+    neg = dict(jobs[0], behaviours=jobs[0]["behaviours"][:1], sabotage=True)
+    for i, job in enumerate(jobs + [neg]):
+        p = os.path.join(wd, "ljob%d.json" % i)
+        json.dump(job, open(p, "w"))
+        e2 = dict(env, NUMBA_CACHE_DIR=core.private_numba_cache("l%d" % i))
+        procs.append((subprocess.Popen([PY, "-m", "harness.layered_driver", p], cwd=VERIF, env=e2, stdin=subprocess.DEVNULL,
+                                       stdout=open(p + ".log", "w"), stderr=subprocess.STDOUT), p, job))
+    nsteps = 0
+    for pr, p, job in procs:
+        try:
+            pr.wait(timeout=3000)
+        except subprocess.TimeoutExpired:
+            pr.kill()
+            raise MachineryError("layered_driver timeout")
+        if pr.returncode != 0 or not os.path.exists(p + ".out.json"):
+            raise MachineryError("layered_driver failed (rc=%s): %s" % (pr.returncode, open(p + ".log").read()[-1500:]))
+        res = json.load(open(p + ".out.json"))
+        if job.get("sabotage"):
+            if not any(s["mismatch"] for s in res["results"][0]):
+                raise MachineryError("layered binding self-test failed: a replay with a skipped call was not detected")
+            ck.notes["negative_control_layered_replay"] = "a behaviour replayed with one real call skipped diverged"
+            continue
+        for beh, steps in zip(job["behaviours"], res["results"]):
+            nsteps += len(steps)
+            ck.cov["traces_validated_against_impl"] += 1
+            for st in beh[:len(steps)]:
+                ck.case(("layered", job["sync"], job["obl_on"], st[0], tuple(map(str, st[1])), json.dumps(st[2])), nontrivial=st[0] != "Init")
+            bad = [s for s in steps if s["mismatch"]]
+            if bad:
+                b = bad[0]
+                mm = b["mismatch"][0]
+                ck.violation({"config": "layered", "action": b["act"], "kind": mm.get("kind"), "what": mm["what"]},
+                             "layered world sync=%s obliquity=%s after %d calls, %s%s: %s" % (job["sync"], job["obl_on"], b["k"], b["act"], b["params"],
+                                 "; ".join("%s got=%s fresh=%s%s" % (m["what"], str(m.get("got"))[:60], str(m.get("fresh", m.get("detail")))[:60],
+                                                                       (" [value of state %s]" % m["value_belongs_to_state"]) if m.get("value_belongs_to_state") else "") for m in b["mismatch"][:3])),
+                             {"sync": job["sync"], "obl_on": job["obl_on"], "behaviour": beh[:b["k"] + 1], "mismatch": b["mismatch"]})
+    ck.notes["layered_replayed_steps"] = nsteps
+    ck.assumptions.append("layered model: io_simple (tidal mantle, non-tidal core) around jupiter/sol, two value ids per input, mantle temperature {1500, 1650} K or strength set directly; fresh reference built twice (thermal state first / orbital state first), both must agree")
+
+
 def run(tier, seed, pid="C13"):
     ck = Check(pid, "model_checking", tier, seed)
     rng = random.Random(seed)
@@ -304,6 +375,8 @@ def run(tier, seed, pid="C13"):
                 job["config"], job["form"], m["state"], m), {"config": job["config"], "form": job["form"], "mismatch": m})
     ck.cov["traces_validated_against_impl"] = sum(len(g["behaviours"]) for j in jobs for g in j["groups"])
     ck.notes["replayed_steps"] = nsteps
+    if pid == "C13":
+        layered_part(ck, tier, rng)
     if results:
         job, res = results[0]
         for b in job["behaviours"][:3]:
